@@ -254,6 +254,16 @@ def bit_or(interp, a, b):
             hi_x = None if x.hi is None else ((x.hi >> k) | top)
             res = mk(r, 0, hi_x, 0)
             return add(mul(res, 1 << k), yl)
+    # an operand that may be negative: split on its sign.  x | y with a negative operand is negative and not below
+    # any negative operand (OR only sets bits of the two's complement); that interval is all the model keeps.
+    for y in (a, b):
+        if isinstance(y, SInt) and not ctx.valid(zi(y) >= 0):
+            if interp.truth(mkbool(zi(y) < 0)):
+                r = ctx.fresh_int("orneg")
+                ctx.assume(z3.And(r <= -1, r >= zi(y)))
+                ctx.trusted.add("bitwise or with a negative operand y abstracted to the interval [y, -1]")
+                return mk(r, None, -1, 0)
+            return bit_or(interp, a, b)
     return _bv_binop(interp, a, b, lambda p, q: p | q, "or")
 
 
